@@ -170,35 +170,6 @@ pub fn __as_f64<T: ToF64>(x: T) -> (r: f64) ensures r == x.to_f64_spec() { x.__t
 // R13: identity on f64 (see rule R13 of the extractor)
 pub fn __idf(x: f64) -> (r: f64) ensures r == x { x }
 
-// ---- prelude fragment: ideal.rs ----
-// Floating point, layer 2 ("idealised real" mode of DESIGN.md 3.2): machine arithmetic treated as
-// mathematical.  rv maps a float to the real it denotes; rounding, overflow, NaN and signed zero are
-// ignored.  Used only where the property is a statement of real arithmetic.
-pub uninterp spec fn rv(x: f64) -> real;
-pub broadcast axiom fn ax_rv_add(a: f64, b: f64) ensures rv(#[trigger] fadd(a, b)) == rv(a) + rv(b);
-pub broadcast axiom fn ax_rv_sub(a: f64, b: f64) ensures rv(#[trigger] fsub(a, b)) == rv(a) - rv(b);
-pub broadcast axiom fn ax_rv_mul(a: f64, b: f64) ensures rv(#[trigger] fmul(a, b)) == rv(a) * rv(b);
-pub broadcast axiom fn ax_rv_div(a: f64, b: f64) ensures rv(b) != 0real ==> rv(#[trigger] fdiv(a, b)) == rv(a) / rv(b);
-pub broadcast axiom fn ax_rv_neg(a: f64) ensures rv(#[trigger] fneg(a)) == 0real - rv(a);
-pub broadcast axiom fn ax_rv_cmp(a: f64, b: f64)
-    ensures #[trigger] fcmp(a, b) == (if rv(a) < rv(b) { Some(core::cmp::Ordering::Less) }
-        else if rv(a) == rv(b) { Some(core::cmp::Ordering::Equal) } else { Some(core::cmp::Ordering::Greater) });
-pub broadcast axiom fn ax_rv_eq(a: f64, b: f64) ensures #[trigger] feq(a, b) == (rv(a) == rv(b));
-pub broadcast axiom fn ax_rv_max(a: f64, b: f64) ensures rv(#[trigger] fmaxf(a, b)) == (if rv(a) >= rv(b) { rv(a) } else { rv(b) });
-pub broadcast axiom fn ax_rv_min(a: f64, b: f64) ensures rv(#[trigger] fminf(a, b)) == (if rv(a) <= rv(b) { rv(a) } else { rv(b) });
-// (idealised) powf denotes a function of the real values of its arguments
-pub uninterp spec fn rpow(x: real, y: real) -> real;
-pub broadcast axiom fn ax_rv_powf(a: f64, b: f64) ensures rv(#[trigger] fpowf(a, b)) == rpow(rv(a), rv(b));
-pub axiom fn ax_rv_lits()
-    ensures rv(0.0f64) == 0real, rv(1.0f64) == 1real, rv(2.0f64) == 2real, rv(0.5f64) * 2real == 1real;
-pub broadcast group ideal {
-    ax_rv_add, ax_rv_sub, ax_rv_mul, ax_rv_div, ax_rv_neg, ax_rv_cmp, ax_rv_eq, ax_rv_max, ax_rv_min, ax_rv_powf
-}
-// (idealised) integer-to-float casts are exact
-pub broadcast axiom fn ax_rv_u64(n: u64) ensures rv(#[trigger] u64_to_f64(n)) == n as real;
-pub broadcast axiom fn ax_rv_usize(n: usize) ensures rv(#[trigger] usize_to_f64(n)) == n as real;
-pub broadcast group ideal_casts { ax_rv_u64, ax_rv_usize }
-
 // ---- extracted from src/lib.rs: enum PlayerNum ----
 #[derive(Copy, Clone)]
 pub enum PlayerNum {
@@ -206,26 +177,6 @@ pub enum PlayerNum {
     One,
     /// The second player
     Two,
-}
-
-// PlayerNum::ind / ind_mut use slice patterns in a `match` (rejected by this Verus); they are kept
-// external with the two-case spec, and that spec is discharged against the real bodies by the
-// loop-free Kani harness `playernum_ind` (so it is cited, not assumed).
-impl PlayerNum {
-    #[verifier::external_body]
-    pub fn ind<'a, T>(&self, arr: &'a [T; 2]) -> (r: &'a T)
-        ensures *r == (match *self { PlayerNum::One => arr[0], PlayerNum::Two => arr[1] })
-    { unimplemented!() }
-
-    #[verifier::external_body]
-    pub fn ind_mut<'a, T>(&self, arr: &'a mut [T; 2]) -> (r: &'a mut T)
-        ensures
-            *r == (match *self { PlayerNum::One => old(arr)[0], PlayerNum::Two => old(arr)[1] }),
-            match *self {
-                PlayerNum::One => final(arr)[0] == *final(r) && final(arr)[1] == old(arr)[1],
-                PlayerNum::Two => final(arr)[1] == *final(r) && final(arr)[0] == old(arr)[0],
-            },
-    { unimplemented!() }
 }
 
 // ---- extracted from src/lib.rs: enum Node ----
@@ -251,37 +202,124 @@ pub struct Player {
     pub actions: Box<[Node]>,
 }
 
-pub open spec fn pnext_ok(num: PlayerNum, p_player: [f64; 2], prob: f64, p_next: [f64; 2]) -> bool {
-    match num {
-        PlayerNum::One => rv(p_next[0]) == rv(p_player[0]) * rv(prob) && p_next[1] == p_player[1],
-        PlayerNum::Two => p_next[0] == p_player[0] && rv(p_next[1]) == rv(p_player[1]) * rv(prob),
+// value of the (rest of the) sampled traversal below `node` in the pass of player FIRST / second
+pub uninterp spec fn sub_spec(first: bool, node: Node) -> f64;
+pub trait CachedPayoff {
+    spec fn spec_get(&self, node: Node) -> Option<f64>;
+    fn get_payoff(&self, node: &Node) -> (r: Option<f64>)
+        ensures r == self.spec_get(*node);
+}
+pub trait ChanceRecurse {
+    spec fn next_view(&self, chance: Chance) -> Node;
+    fn next<'a>(&self, chance: &'a Chance) -> (r: &'a Node)
+        ensures *r == self.next_view(*chance);
+}
+pub trait ActiveRecurse {
+    spec fn recurse_view(&self, first: bool, player: Player) -> f64;
+    spec fn pass_first(&self) -> bool;
+    fn recurse<F: Fn(&Node) -> f64>(&self, player: &Player, rec: F) -> (r: f64)
+        requires
+            forall|n: &Node| #[trigger] rec.requires((n,)),
+            forall|n: &Node, o: f64| #[trigger] rec.ensures((n,), o) ==> o == sub_spec(self.pass_first(), *n),
+        ensures r == self.recurse_view(self.pass_first(), *player);
+}
+pub trait ExternalRecurse {
+    spec fn next_update_view(&self, player: Player) -> Node;
+    fn next_update<'a>(&self, player: &'a Player) -> (r: &'a Node)
+        ensures *r == self.next_update_view(*player);
+}
+pub open spec fn is_active(num: PlayerNum, first: bool) -> bool { match num { PlayerNum::One => first, PlayerNum::Two => !first } }
+#[verifier::external_body]
+pub fn __rec<const FIRST: bool, C: ChanceRecurse, AR: ActiveRecurse, E: ExternalRecurse, CP: CachedPayoff>(
+    node: &Node, chance_infosets: &[C], active_player_infosets: &[AR], external_player_infosets: &[E], cached: &CP) -> (r: f64)
+    ensures r == sub_spec(FIRST, *node),
+{ unimplemented!() }
+
+// ---- extracted from src/solve/external.rs: fn recurse_regret ----
+pub fn recurse_regret<const FIRST: bool, C: ChanceRecurse, AR: ActiveRecurse, E: ExternalRecurse, CP: CachedPayoff>(
+    node: &Node,
+    chance_infosets: &[C],
+    active_player_infosets: &[AR],
+    external_player_infosets: &[E],
+    cached: &CP,
+) -> (r: f64) 
+    requires
+        match *node {
+            Node::Terminal(_) => true,
+            Node::Chance(ch) => ch.infoset < chance_infosets@.len(),
+            Node::Player(pl) => if is_active(pl.num, FIRST) { pl.infoset < active_player_infosets@.len()
+                    && active_player_infosets@[pl.infoset as int].pass_first() == FIRST }
+                else { pl.infoset < external_player_infosets@.len() },
+        },
+    ensures
+        // a frontier node already evaluated by a worker is not traversed again
+        cached.spec_get(*node) is Some ==> r == cached.spec_get(*node)->0, // @ob C08.V.recurse_regret.cache_hit
+        cached.spec_get(*node) is None ==> match *node {
+            // payoffs are player one's: the second player's pass sees them negated
+            Node::Terminal(pay) => r == (if FIRST { pay } else { fneg(pay) }), // @ob C08.V.recurse_regret.terminal_sign
+            // chance: ONLY the sampled outcome is followed
+            Node::Chance(ch) => r == sub_spec(FIRST, chance_infosets@[ch.infoset as int].next_view(ch)), // @ob C08.V.recurse_regret.chance_sampled
+            // the pass's own player enumerates actions (CachedInfoset::recurse with a continuation that
+            // stays in the same pass); the other player's sampled action is followed, and its average
+            // strategy updated on the way (next_update)
+            Node::Player(pl) => if is_active(pl.num, FIRST) {
+                    r == active_player_infosets@[pl.infoset as int].recurse_view(FIRST, pl) // @ob C08.V.recurse_regret.active_enumerates
+                } else {
+                    r == sub_spec(FIRST, external_player_infosets@[pl.infoset as int].next_update_view(pl)) // @ob C08.V.recurse_regret.external_sampled
+                },
+        },
+{
+broadcast use fl;
+proof { ax_obeys(); }
+
+    if let Some(pay) = cached.get_payoff(node) {
+        pay
+    } else {
+        match node {
+            Node::Terminal(payoff) => {
+                if FIRST {
+                    *payoff
+                } else {
+                    __neg(payoff)
+                }
+            }
+            Node::Chance(chance) => __rec::<FIRST, C, AR, E, CP>(
+                chance_infosets[chance.infoset].next(chance),
+                chance_infosets,
+                active_player_infosets,
+                external_player_infosets,
+                cached,
+            ),
+            Node::Player(player) => match (player.num, FIRST) {
+                (PlayerNum::One, true) | (PlayerNum::Two, false) => {
+                    active_player_infosets[player.infoset].recurse(player, |next: &Node| -> (o: f64) ensures o == sub_spec(FIRST, *next) {
+                        __rec::<FIRST, C, AR, E, CP>(
+                            next,
+                            chance_infosets,
+                            active_player_infosets,
+                            external_player_infosets,
+                            cached,
+                        )
+                    })
+                }
+                (PlayerNum::One, false) | (PlayerNum::Two, true) => __rec::<FIRST, C, AR, E, CP>(
+                    external_player_infosets[player.infoset].next_update(player),
+                    chance_infosets,
+                    active_player_infosets,
+                    external_player_infosets,
+                    cached,
+                ),
+            },
+        }
     }
 }
-
-// ---- extracted from src/solve/vanilla.rs: fn thread_threshold ----
-pub fn thread_threshold__player_action<'a>(player: &Player, prob: &f64, next: &'a Node, p_chance: f64, p_player: [f64; 2], work: &mut Vec<(&'a Node, f64, [f64; 2])>, mut next_probs: [f64; 2])
-    ensures
-        // exactly one frontier entry per action: the child, the unchanged chance reach, and the reach
-        // vector of ITS path -- only the acting player's entry multiplied by this action's probability
-        final(work)@.len() == old(work)@.len() + 1,
-        final(work)@.take(old(work)@.len() as int) == old(work)@,
-        final(work)@.last().0 == next && final(work)@.last().1 == p_chance, // @ob C06.V.thread_threshold.frontier_reach
-        pnext_ok(player.num, p_player, *prob, final(work)@.last().2), // @ob C06.V.thread_threshold.frontier_reach
-{
-broadcast use fl; broadcast use ideal;
-proof { ax_obeys(); ax_rv_lits(); }
-
-                    let mut next_probs = p_player;
-                    *player.num.ind_mut(&mut next_probs) = *player.num.ind_mut(&mut next_probs) * ( prob);
-                    work.push((next, p_chance, next_probs));
-                }
 
 
 // vacuity canary: must be REJECTED by the verifier (an inconsistent axiom set would accept it)
 pub proof fn __canary_must_fail()
     ensures false, // @ob __canary
 {
-    broadcast use fl; broadcast use ideal; ax_obeys(); ax_rv_lits();
+    broadcast use fl; ax_obeys();
 }
 
 } // verus!
